@@ -310,6 +310,12 @@ def gen_case(rng, kind=None):
     if rng.random() < 0.15 and arcs:
         a = rng.choice(arcs)                     # the same arc given twice with other data: overwritten in place
         arcs.append(("arc", a[1], a[2], rng.randint(0, 4), rng.randint(-3, 6)))
+    if strict and kind in ("ctor", "mixed", "api") and rng.random() < 0.25:
+        # far from the clock origin: customer windows and the legs out of the depot are moved by t0, so walks keep their
+        # relative timing while every arrival time is large and may be late by a single unit
+        t0 = 1 << rng.choice([17, 20, 24])
+        nodes = [nodes[0]] + [(o[0], o[1], o[2], o[3] + t0, o[4] if o[4] == INF else o[4] + t0) for o in nodes[1:]]
+        arcs = [(a[0], a[1], a[2], a[3] + t0 if (a[1] == names[0] and a[2] != names[0]) else a[3], a[4]) for a in arcs]
     if rich:
         V = rng.choice([1, 2, 2, 3])
         L = rng.choice([3, 4, 4, 5])
